@@ -9,6 +9,8 @@ import (
 	"context"
 	"encoding/gob"
 	"fmt"
+	"hash"
+	"hash/fnv"
 	"io"
 	"io/ioutil"
 	"math/rand"
@@ -1552,6 +1554,13 @@ type evalOpenerAt struct {
 	// machine is the machine used by the last attempt to open a reader,
 	// post-successful evaluation.
 	machine *bigmachine.Machine
+	// digest is a running digest of the bytes read so far. It is used to
+	// verify that a read can be resumed in an output that was computed anew.
+	digest hash.Hash64
+	// unverified is set when the task's output may have been computed anew
+	// since the bytes accounted for in digest were read, until the new output
+	// is verified to begin with these bytes.
+	unverified bool
 }
 
 // OpenAt implements openerAt.
@@ -1559,15 +1568,66 @@ func (e *evalOpenerAt) OpenAt(ctx context.Context, offset int64) (io.ReadCloser,
 	// Evaluate the task, so that results are available for reading. This
 	// provides some fault tolerance when machines are lost after evaluation
 	// is complete (e.g. during final result scanning).
+	recomputed := e.Task.State() != TaskOk
 	err := Eval(ctx, e.Executor, []*Task{e.Task}, nil)
 	if err != nil {
 		return nil, err
 	}
-	e.machine = e.Executor.location(e.Task).Machine
+	machine := e.Executor.location(e.Task).Machine
+	if e.digest == nil {
+		e.digest = fnv.New64a()
+	}
+	// If the task was computed anew since we began reading, its output holds
+	// the same rows, but not necessarily the same bytes (e.g. the rows of a
+	// shuffle may arrive in a different order). We may resume at a byte
+	// offset only if the new output begins with the bytes that we have
+	// already read; otherwise we would silently repeat and drop rows.
+	if recomputed || machine != e.machine {
+		e.unverified = true
+	}
+	e.machine = machine
+	verify := offset > 0 && e.unverified
+	openOffset := offset
+	if verify {
+		openOffset = 0
+	}
 	var r io.ReadCloser
 	err = e.machine.RetryCall(ctx,
-		"Worker.Read", readRequest{e.Task.Name, e.Partition, offset}, &r)
-	return r, err
+		"Worker.Read", readRequest{e.Task.Name, e.Partition, openOffset}, &r)
+	if err != nil {
+		return nil, err
+	}
+	if verify {
+		digest := fnv.New64a()
+		if _, err := io.CopyN(digest, r, offset); err != nil {
+			_ = r.Close()
+			return nil, err
+		}
+		if digest.Sum64() != e.digest.Sum64() {
+			_ = r.Close()
+			return nil, errors.E(errors.Fatal, errors.Integrity,
+				fmt.Sprintf("read %s:%d: task output was computed anew and differs in its first %d bytes; cannot resume read",
+					e.Task.Name, e.Partition, offset))
+		}
+	}
+	e.unverified = false
+	return digestReadCloser{r, e.digest}, nil
+}
+
+// digestReadCloser is an io.ReadCloser that adds the bytes that it reads
+// successfully to a digest.
+type digestReadCloser struct {
+	io.ReadCloser
+	digest hash.Hash64
+}
+
+func (d digestReadCloser) Read(p []byte) (int, error) {
+	n, err := d.ReadCloser.Read(p)
+	if err == nil || err == io.EOF {
+		// retryReader drops what is read together with any other error.
+		_, _ = d.digest.Write(p[:n])
+	}
+	return n, err
 }
 
 func (e evalOpenerAt) String() string {
